@@ -727,3 +727,67 @@ func TestC08Illegal(t *testing.T) {
 		})
 	})
 }
+
+// TestC08Backend: an accepted connection whose BACKEND misbehaves while the write
+// side is still inspected: handshake records that look like a ServerHello or a
+// HelloRetryRequest but are cut short, lie about their handshake length or carry a
+// damaged extension block, written in drawn pieces so that the short record is
+// sometimes the very end of what Conn.Write has buffered.
+func TestC08Backend(t *testing.T) {
+	rec := ev.Get("C08")
+	rapid.Check(t, func(t *rapid.T) {
+		sc := drawSealed(t, false)
+		in := c08Input{Client: append([]byte{}, sc.Record...), Keys: []*hello.Key{sc.Key}}
+		var desc []string
+		for i, n := 0, rapid.IntRange(1, 4).Draw(t, "n_backend"); i < n; i++ {
+			var body []byte
+			kind := rapid.IntRange(0, 5).Draw(t, "bkind")
+			switch kind {
+			case 0, 1: // a real ServerHello / HRR message, cut somewhere
+				rnd := hello.GenBytes(t, "sh_random", 32)
+				if kind == 1 {
+					rnd = hrrRandom
+				}
+				m := serverHelloMsg(rnd, hello.GenBytes(t, "sh_sid", rapid.IntRange(0, 32).Draw(t, "sh_sidl")), []hello.Ext{{Type: 43, Data: []byte{3, 4}}, {Type: 51, Data: []byte{0, 0x17}}})
+				body = m[:uniform(t, "sh_cut", len(m)+1)]
+				if rapid.Bool().Draw(t, "keep_declared_len") && len(body) >= 4 {
+					// the handshake header still declares the full length
+				} else if len(body) >= 4 {
+					n := len(body) - 4
+					body[1], body[2], body[3] = byte(n>>16), byte(n>>8), byte(n)
+				}
+			case 2: // bare header with a large declared length
+				body = []byte{2, 0, byte(rapid.IntRange(0, 2).Draw(t, "dl_hi")), byte(rapid.IntRange(0, 255).Draw(t, "dl_lo"))}
+				body = append(body, hello.GenBytes(t, "after_hdr", rapid.IntRange(0, 40).Draw(t, "after_hdr_len"))...)
+			case 3: // ServerHello whose extension block lies
+				m := serverHelloMsg(hrrRandom, nil, []hello.Ext{{Type: 43, Data: []byte{3, 4}}})
+				m[len(m)-8] ^= byte(1 + rapid.IntRange(0, 254).Draw(t, "ext_len_flip"))
+				body = m
+			default:
+				body = hello.GenBytes(t, "junk", rapid.IntRange(0, 60).Draw(t, "junk_len"))
+				if len(body) > 0 {
+					body[0] = 2
+				}
+			}
+			desc = append(desc, fmt.Sprintf("kind%d/%d", kind, len(body)))
+			in.Backend = append(in.Backend, hello.Record(22, 0x0303, body)...)
+			if rapid.IntRange(0, 3).Draw(t, "then_ccs") == 0 {
+				in.Backend = append(in.Backend, hello.Record(20, 0x0303, []byte{1})...)
+			}
+		}
+		in.Sched = hello.GenBytes(t, "sched", rapid.IntRange(1, 48).Draw(t, "schedlen"))
+		var viol string
+		var accepted bool
+		watch("C08", in.replay(), func() { viol, _, accepted = c08Drive(in, true) })
+		if viol != "" {
+			ev.Violation(t, "C08", in.replay(), "%s (backend records %v)", viol, desc)
+		}
+		if !accepted {
+			t.Fatalf("harness: sealed hello not accepted")
+		}
+		sum := sha256.Sum256(in.Backend)
+		rec.Case("backend|"+hx(sum[:8]), true, []string{"hostile_backend_while_inspected"}, func() any {
+			return map[string]any{"kind": "hostile_backend", "records": desc}
+		})
+	})
+}
